@@ -542,13 +542,35 @@ def u_pickle_state(ctx):
         declared = tuple(getattr(cls, "__slots__", ())) or attrs
         ctx.check(f"C05/pickle_state/{cls.__name__}/fixture_covers_all_declared_attributes", set(attrs) >= set(a for a in declared if not a.startswith("__")),
                   detail=f"declared {declared}")
-        src = cls.__new__(cls)
-        vals = {a: ("VALUE", cls.__name__, a) for a in attrs}
-        for a, v in vals.items():
-            setattr(src, a, v)
-        state = expect_no_exception(ctx, call(src.__getstate__), f"C05/{cls.__name__}.__getstate__")
-        dst = cls.__new__(cls)
-        expect_no_exception(ctx, call(dst.__setstate__, state), f"C05/{cls.__name__}.__setstate__")
-        for a, v in vals.items():
-            ctx.check(f"C05/pickle_state/{cls.__name__}/attribute_{a}_survives", getattr(dst, a, None) is v,
-                      detail="an attribute that is not in the pickled state comes back as a default in the worker process")
+        import numpy as _np
+        O = mod("yaw.options")
+        # opaque tokens first (they show every attribute that is dropped or replaced, whatever its type); if the class rebuilds itself
+        # through code that looks into the values (e.g. its constructor), values of the real types with non-default content are used
+        realistic = {B.Binning: dict(edges=_np.array([0.1, 0.4, 1.0]), closed=O.Closed("left"))}
+        attempts = [{a: ("VALUE", cls.__name__, a) for a in attrs}] + ([realistic[cls]] if cls in realistic else [])
+        for k, vals in enumerate(attempts):
+            src = cls.__new__(cls)
+            for a, v in vals.items():
+                setattr(src, a, v)
+            state = call(src.__getstate__)
+            dst = cls.__new__(cls)
+            r = state if isinstance(state, Raised) else call(dst.__setstate__, state)
+            if isinstance(r, Raised):
+                if k + 1 < len(attempts):
+                    continue            # the code inspects the values: try again with values of the real types
+                if len(attempts) == 1:
+                    from pyvc.core import Unsupported
+                    raise Unsupported(f"{cls.__name__}.__getstate__/__setstate__ inspect the attribute values; the fixture has no values of the real types for this class")
+                fail(ctx, f"C05/{cls.__name__}.__setstate__/no_unexpected_exception", detail=f"{type(r.exc).__name__}: {r.exc}")
+                break
+
+            def same(x, y):
+                if x is y:
+                    return True
+                if isinstance(x, _np.ndarray) or isinstance(y, _np.ndarray):
+                    return isinstance(x, _np.ndarray) and isinstance(y, _np.ndarray) and _np.array_equal(x, y)
+                return k > 0 and type(x) is type(y) and x == y
+            for a, v in vals.items():
+                ctx.check(f"C05/pickle_state/{cls.__name__}/attribute_{a}_survives", same(getattr(dst, a, None), v),
+                          detail="an attribute that is not in the pickled state comes back as a default in the worker process")
+            break
